@@ -307,11 +307,13 @@ class SimCacheManager(ecache.CacheManager):
 class EngineEnv:
     """Installs the clock / datetime / env seams for one run and restores them afterwards."""
 
-    def __init__(self, root: str, clock: SimClock, *, ci: bool = True, patch_caches: bool = True):
+    def __init__(self, root: str, clock: SimClock, *, ci: bool = True, patch_caches: bool = True, keep_process_state: bool = False):
         self.root = root
         self.clock = clock
         self.ci = ci
         self.patch_caches = patch_caches
+        # True: the engine's process-global caches survive entering this environment (a warm process that ran other work)
+        self.keep_process_state = keep_process_state
         self.logs = os.path.join(root, "logs")
         self.snap = os.path.join(root, "snap")
         self._saved: List[Tuple[Any, str, Any]] = []
@@ -361,7 +363,8 @@ class EngineEnv:
                 os.environ[k] = v
         self._cwd = os.getcwd()
         os.chdir(self.root)
-        reset_globals()
+        if not self.keep_process_state:
+            reset_globals()
         return self
 
     def __exit__(self, *a) -> bool:
@@ -377,7 +380,8 @@ class EngineEnv:
             os.chdir(self._cwd or "/")
         except Exception:
             os.chdir("/")
-        reset_globals()
+        if not getattr(self, "leave_process_state", False):
+            reset_globals()
         return False
 
 
